@@ -234,9 +234,10 @@ def r3_one_index_space(ctx, rule="C02.R3", rule5="C02.R5", with_metadata: bool =
     hugr = prog.cls(f"{BASE}.Hugr")
     nd = prog.cls(f"{BASE}.NodeData")
     file = hugr.module.path
-    fn = hugr.methods.get("_to_serial")
-    if fn is None:
-        ctx.broken("anchor vanished: Hugr._to_serial")
+    fn_o, _, _ = ctx.locate(f"{BASE}.Hugr._to_serial")
+    # canonical body with the local closures seen through (hv/canon.py): loops are comprehensions, temporaries are substituted
+    closures = {n.name for n in ast.walk(fn_o) if isinstance(n, ast.FunctionDef) and n is not fn_o}
+    fn = ctx.cfn(f"{BASE}.Hugr._to_serial", inline=closures)
     sh_calls = [c for c in calls_in(fn) if u(c.func).split(".")[-1] == "SerialHugr"]
     if len(sh_calls) != 1:
         ctx.broken("Hugr._to_serial: expected exactly one SerialHugr(...) construction")
@@ -312,44 +313,33 @@ def r3_one_index_space(ctx, rule="C02.R3", rule5="C02.R5", with_metadata: bool =
         ctx.broken("Hugr._to_serial: nodes= is not a comprehension")
 
     # --- sink 2: edge endpoints
-    if isinstance(edges_arg, (ast.ListComp, ast.GeneratorExp)) and isinstance(edges_arg.elt, ast.Call) \
-            and isinstance(edges_arg.elt.func, ast.Name) and edges_arg.elt.func.id in nested:
-        h = nested[edges_arg.elt.func.id]
-        env2 = dict(env)
-        for s in real_body(h):
-            if isinstance(s, ast.Assign) and len(s.targets) == 1 and isinstance(s.targets[0], ast.Name):
-                env2[s.targets[0].id] = isp.cls_of(s.value, env2)
-        rets = [s for s in ast.walk(h) if isinstance(s, ast.Return) and s.value is not None]
-        for r in rets:
-            pairs = r.value.elts if isinstance(r.value, ast.Tuple) else []
-            if len(pairs) != 2 or not all(isinstance(p, ast.Tuple) and len(p.elts) == 2 for p in pairs):
-                ctx.broken("Hugr._to_serial: link helper does not return ((node, offset), (node, offset))")
-            for side, p in zip(("source", "target"), pairs):
-                c = isp.cls_of(p.elts[0], env2)
-                ctx.check(c == POS, rule, f"Hugr._to_serial.{h.name}: {side} node index", file, r.lineno,
-                          f"the {side} endpoint of an edge is written as `{u(p.elts[0])}`, a stored node index instead of the node's "
-                          "position in the emitted node list: after a deletion edges name nodes that do not exist", r,
-                          expected="position in the renumbered node list", found=u(p.elts[0]), detail=f"{u(p.elts[0])} [{c}]")
-            # both offsets go through the offset encoder (R5a)
-            for side, p in zip(("source", "target"), pairs):
-                off = p.elts[1]
-                val = off
-                if isinstance(off, ast.Name):
-                    for s in ast.walk(h):
-                        if isinstance(s, ast.Assign):
-                            tg, v = s.targets[0], s.value
-                            if isinstance(tg, ast.Tuple) and isinstance(v, ast.Tuple):
-                                for a, b in zip(tg.elts, v.elts):
-                                    if isinstance(a, ast.Name) and a.id == off.id:
-                                        val = b
-                            elif isinstance(tg, ast.Name) and tg.id == off.id:
-                                val = v
-                ok = isinstance(val, ast.Call) and call_name(val) == "_constrain_offset"
-                ctx.check(ok, rule5, f"Hugr._to_serial.{h.name}: {side} offset encoded", file, r.lineno,
-                          f"the {side} port offset `{u(val)}` is written without passing through the order-port encoder: "
-                          "the internal offset -1 would reach the document", r, detail=u(val))
-    else:
-        ctx.broken("Hugr._to_serial: edges= is not a comprehension over a local link helper")
+    pairs_src = None
+    if isinstance(edges_arg, (ast.ListComp, ast.GeneratorExp)):
+        env_e = dict(env)
+        isp.bind_comp(edges_arg.generators, env_e)
+        for g_ in edges_arg.generators:
+            for n_ in ast.walk(g_.target):
+                if isinstance(n_, ast.Name):
+                    env_e.setdefault(n_.id, OTHER)
+        elt = edges_arg.elt
+        if isinstance(elt, ast.Tuple) and len(elt.elts) == 2 and all(isinstance(p_, ast.Tuple) and len(p_.elts) == 2 for p_ in elt.elts):
+            pairs_src = (elt.elts, env_e, elt)
+    if pairs_src is None:
+        ctx.broken("Hugr._to_serial: edges= is not a comprehension of ((node, offset), (node, offset)) pairs")
+    pairs, env2, r = pairs_src
+    for side, p_ in zip(("source", "target"), pairs):
+        c = isp.cls_of(p_.elts[0], env2)
+        ctx.check(c == POS, rule, f"Hugr._to_serial: {side} node index", file, r.lineno,
+                  f"the {side} endpoint of an edge is written as `{u(p_.elts[0])}`, a stored node index instead of the node's "
+                  "position in the emitted node list: after a deletion edges name nodes that do not exist", r,
+                  expected="position in the renumbered node list", found=u(p_.elts[0]), detail=f"{u(p_.elts[0])} [{c}]")
+    # both offsets go through the offset encoder (R5a)
+    for side, p_ in zip(("source", "target"), pairs):
+        val = p_.elts[1]
+        ok = isinstance(val, ast.Call) and call_name(val) == "_constrain_offset"
+        ctx.check(ok, rule5, f"Hugr._to_serial: {side} offset encoded", file, r.lineno,
+                  f"the {side} port offset `{u(val)}` is written without passing through the order-port encoder: "
+                  "the internal offset -1 would reach the document", r, detail=u(val))
 
     # --- metadata list is aligned with the node list
     if not with_metadata:
@@ -377,112 +367,120 @@ def _loops_over(fn, attr_name):
 
 
 def r4_r5_r7_load(ctx, R4="C02.R4", R5="C02.R5", R7="C02.R7") -> None:
+    """stated over the canonical body of Hugr._from_serial (closures and private helpers inlined) and the path summaries
+    of its two loops"""
+    from ..paths import summaries
     prog = ctx.program
     hugr = prog.cls(f"{BASE}.Hugr")
     file = hugr.module.path
-    fn = hugr.methods.get("_from_serial")
-    if fn is None:
-        ctx.broken("anchor vanished: Hugr._from_serial")
+    fn_o, _, _ = ctx.locate(f"{BASE}.Hugr._from_serial")
+    closures = {n.name for n in ast.walk(fn_o) if isinstance(n, ast.FunctionDef) and n is not fn_o}
+    fn = ctx.cfn(f"{BASE}.Hugr._from_serial", inline=closures, subst=False)
     sname = fn.args.args[1].arg
+    bodies = {}
     for attr_name, effect in (("nodes", ("_add_node", "add_node")), ("edges", ("add_link",))):
         loops = _loops_over(fn, attr_name)
         if len(loops) != 1:
             ctx.broken(f"Hugr._from_serial: expected one loop over {sname}.{attr_name}, found {len(loops)}")
         loop = loops[0]
-        g = CFG(loop.body, loop_body=True)
-        eff = g.where(lambda s: any(call_name(c) in effect for c in calls_in(s)))
-        # every non-raising path through the body passes an effect statement
-        reach = g.reachable(0, avoid=set(eff))
-        ok = bool(eff) and EXIT not in reach
-        skip = [g.stmt[n] for n in reach if isinstance(g.stmt.get(n), ast.Continue)]
-        ctx.check(ok, R4, f"Hugr._from_serial: every element of {attr_name} is loaded", file,
-                  (skip[0].lineno if skip else loop.lineno),
+        ps = [p for p in summaries(loop.body) if p.kind != "raise"]
+        bodies[attr_name] = (loop, ps)
+        def effs(p):
+            return [e for e in p.effects if isinstance(e, ast.Expr) and isinstance(e.value, ast.Call) and call_name(e.value) in effect]
+        missing = [p for p in ps if not effs(p)]
+        ctx.check(bool(ps) and not missing, R4, f"Hugr._from_serial: every element of {attr_name} is loaded", file,
+                  getattr(missing[0].node, "lineno", loop.lineno) if missing else loop.lineno,
                   f"some path through the loop over {sname}.{attr_name} never reaches {'/'.join(effect)}: those elements of the "
-                  "document are silently dropped on load" + (f" (`{u(_guard_of(loop, skip[0]))}`)" if skip else ""),
-                  _guard_of(loop, skip[0]) if skip else loop, detail=f"{effect[0]} on every path")
-        if any(isinstance(n, (ast.ListComp, ast.GeneratorExp)) and any(gg.ifs for gg in n.generators) for n in [loop.iter]):
-            ctx.fail(R4, f"Hugr._from_serial: {attr_name} filtered", file, loop.lineno, "filtered iteration drops elements", loop)
+                  "document are silently dropped on load" + (f" ({missing[0].describe()})" if missing else ""),
+                  (missing[0].node or loop) if missing else loop, detail=f"{effect[0]} on every path")
+        it = loop.iter.args[0] if isinstance(loop.iter, ast.Call) and u(loop.iter.func) == "enumerate" and loop.iter.args else loop.iter
+        if not (isinstance(it, ast.Attribute) and u(it) == f"{sname}.{attr_name}"):
+            ctx.fail(R4, f"Hugr._from_serial: {attr_name} filtered", file, loop.lineno, "the loop must range over the whole list of the document", loop)
     # R7: node loop restores op, parent, metadata
-    nloop = _loops_over(fn, "nodes")[0]
+    nloop, nps = bodies["nodes"]
     tg = nloop.target
-    idxv, elv = (tg.elts[0].id, tg.elts[1].id) if isinstance(tg, ast.Tuple) else (None, tg.id)
-    adds = [c for c in calls_in(nloop) if call_name(c) in ("_add_node", "add_node")]
-    if len(adds) != 1:
-        ctx.broken("Hugr._from_serial: expected one _add_node call in the node loop")
-    add = adds[0]
-    op_arg = kwarg(add, "op", 0)
-    par_arg = kwarg(add, "parent", 1)
-    meta_arg = kwarg(add, "metadata", 3)
-    ok_op = op_arg is not None and isinstance(op_arg, ast.Call) and call_name(op_arg) == "deserialize" and elv in [n.id for n in ast.walk(op_arg) if isinstance(n, ast.Name)]
-    ctx.check(ok_op, R7, "Hugr._from_serial: op", file, add.lineno,
-              "each node must be created from its own serialized operation (`<node>.root.deserialize()`)", add,
-              expected=f"{elv}.root.deserialize()", found=u(op_arg))
-    # parent: a local assigned from Node(<el>.root.parent), reset to None exactly under `<el>.root.parent == idx`
-    pname = par_arg.id if isinstance(par_arg, ast.Name) else None
-    passign = [s for s in ast.walk(nloop) if isinstance(s, (ast.Assign, ast.AnnAssign)) and (
-        (isinstance(s, ast.Assign) and isinstance(s.targets[0], ast.Name) and s.targets[0].id == pname) or
-        (isinstance(s, ast.AnnAssign) and isinstance(s.target, ast.Name) and s.target.id == pname))]
-    from_parent = [s for s in passign if s.value is not None and f"{elv}.root.parent" in u(s.value) and "Node(" in u(s.value)]
-    none_assign = [s for s in passign if isinstance(s.value, ast.Constant) and s.value.value is None]
-    ok_par = pname is not None and len(from_parent) == 1 and len(none_assign) <= 1
-    if ok_par and none_assign:
-        # the None assignment must be controlled by the self-parent test
-        ifs = [n for n in ast.walk(nloop) if isinstance(n, ast.If) and none_assign[0] in ast.walk(n)]
-        ok_par = bool(ifs) and idxv is not None and sorted(x.strip() for x in u(ifs[0].test).split("==")) == sorted([f"{elv}.root.parent", idxv])
-    ctx.check(ok_par, R7, "Hugr._from_serial: parent", file, add.lineno,
-              "each node must be attached to the parent its serialized form names; only the node that is its own parent becomes the root", add,
-              expected=f"Node({elv}.root.parent), None iff {elv}.root.parent == {idxv}", found="; ".join(u(s) for s in passign)[:200])
-    # metadata: derived from serial.metadata at this node's position
-    msrc = meta_arg
-    if isinstance(meta_arg, ast.Name):
-        for s in ast.walk(nloop):
-            if isinstance(s, ast.Assign) and isinstance(s.targets[0], ast.Name) and s.targets[0].id == meta_arg.id:
-                msrc = s.value
-    ok_meta = msrc is not None and idxv is not None and (
-        (isinstance(msrc, ast.Call) and call_name(msrc) == "get_meta" and len(msrc.args) == 1 and u(msrc.args[0]) == idxv)
-        or (f"{sname}.metadata[{idxv}]" in u(msrc)))
-    ctx.check(bool(ok_meta), R7, "Hugr._from_serial: metadata", file, add.lineno,
-              "each node must receive the metadata entry at its own position in the document", add,
-              expected=f"metadata of position {idxv}", found=u(msrc))
-    gm = [n for n in ast.walk(fn) if isinstance(n, ast.FunctionDef) and n.name == "get_meta"]
-    if gm:
-        p = gm[0].args.args[0].arg
-        subs = [n for n in ast.walk(gm[0]) if isinstance(n, ast.Subscript) and u(n.value) == f"{sname}.metadata"]
-        ctx.check(bool(subs) and all(u(s.slice) == p for s in subs), R7, "Hugr._from_serial.get_meta: index", file, gm[0].lineno,
-                  "get_meta(i) must read entry i of the metadata list", gm[0], expected=f"{sname}.metadata[{p}]",
-                  found="; ".join(u(s) for s in subs))
-    # root metadata: the root handle carries the node's metadata
+    idxv, elv = (tg.elts[0].id, tg.elts[1].id) if isinstance(tg, ast.Tuple) and all(isinstance(e, ast.Name) for e in tg.elts) else (None, u(tg))
+    ok_op = ok_par = ok_meta = bool(nps)
+    seen_root = seen_child = seen_meta = False
+    f_op = f_par = f_meta = ""
+    line = nloop.lineno
+    for p in nps:
+        # (a value bound to a local recurs textually where the local is read: count the evaluations, not the mentions)
+        add_idx = [i for i, e in enumerate(p.effects) if isinstance(e, ast.Expr) and isinstance(e.value, ast.Call) and call_name(e.value) in ("_add_node", "add_node")]
+        adds = [p.effects[i].value for i in add_idx]
+        if len(adds) != 1:
+            ok_op = ok_par = ok_meta = False
+            f_op = f"{len(adds)} add_node calls on a path"
+            continue
+        add = adds[0]
+        line = getattr(add, "lineno", line)
+        op_arg, par_arg, meta_arg = kwarg(add, "op", 0), kwarg(add, "parent", 1), kwarg(add, "metadata", 3)
+        f_op = u(op_arg)
+        ok_op = ok_op and op_arg is not None and u(op_arg) == f"{elv}.root.deserialize()"
+        is_root = [k for t, k in p.tests if idxv and sorted(x.strip() for x in u(t).split("==")) == sorted([f"{elv}.root.parent", idxv])]
+        f_par = u(par_arg)
+        if is_root and is_root[0]:
+            seen_root = True
+            ok_par = ok_par and par_arg is not None and u(par_arg) == "None"
+        else:
+            seen_child = True
+            # the parent index is read before the document's own parent field is overwritten
+            overwritten = any(isinstance(e, ast.Assign) and u(e.targets[0]) == f"{elv}.root.parent" for e in p.effects[:add_idx[0]])
+            want_par = f"old_(Node({elv}.root.parent))" if overwritten else f"Node({elv}.root.parent)"
+            ok_par = ok_par and bool(is_root) and par_arg is not None and u(par_arg) == want_par
+        # metadata: the entry at this node's own position (or empty)
+        f_meta = u(meta_arg)
+        subs = [n for n in ast.walk(meta_arg) if isinstance(n, ast.Subscript) and u(n.value) == f"{sname}.metadata"] if meta_arg is not None else []
+        if subs:
+            seen_meta = True
+        ok_meta = ok_meta and meta_arg is not None and all(u(x.slice) == idxv for x in subs) and (bool(subs) or u(meta_arg) in ("{}", "None", "dict()"))
+    ctx.check(ok_op, R7, "Hugr._from_serial: op", file, line,
+              "each node must be created from its own serialized operation (`<node>.root.deserialize()`)", nloop,
+              expected=f"{elv}.root.deserialize()", found=f_op)
+    ctx.check(ok_par and seen_root and seen_child, R7, "Hugr._from_serial: parent", file, line,
+              "each node must be attached to the parent its serialized form names; only the node that is its own parent becomes the root", nloop,
+              expected=f"Node({elv}.root.parent), None iff {elv}.root.parent == {idxv}", found=f_par)
+    ctx.check(ok_meta and seen_meta, R7, "Hugr._from_serial: metadata", file, line,
+              "each node must receive the metadata entry at its own position in the document", nloop,
+              expected=f"{sname}.metadata[{idxv}]", found=f_meta)
     ctx.ok(R7, "Hugr._from_serial: contiguous", "assert n.idx == idx") if any(
-        isinstance(s, ast.Assert) and "idx" in u(s.test) for s in ast.walk(nloop)) else None
+        isinstance(s_, ast.Assert) and "idx" in u(s_.test) for s_ in ast.walk(nloop)) else None
 
     # R5b: the decoder applies the inverse of the order-port encoder before add_link
-    eloop = _loops_over(fn, "edges")[0]
+    eloop, eps = bodies["edges"]
     co = hugr.methods.get("_constrain_offset")
     if co is None:
         ctx.broken("anchor vanished: Hugr._constrain_offset")
     enc_helpers = {call_name(c) for c in calls_in(co)} - {None}
-    for c in calls_in(eloop, "add_link"):
-        for side, a in zip(("source", "target"), c.args):
-            if not (isinstance(a, ast.Call) and call_name(a) in ("out", "inp") and a.args):
-                ctx.broken("Hugr._from_serial: add_link arguments are not <node>.out(...)/<node>.inp(...)")
-            off = a.args[0]
-            inv = None
-            if isinstance(off, ast.Call) and isinstance(off.func, ast.Attribute):
-                k, m = hugr.find_method(off.func.attr)
-                inv = m
-            ok = inv is not None and any(isinstance(r.value, ast.UnaryOp) and u(r.value) == "-1" or (isinstance(r.value, ast.IfExp) and "-1" in u(r.value))
-                                         for r in ast.walk(inv) if isinstance(r, ast.Return) and r.value is not None)
-            ctx.check(bool(ok), R5, f"Hugr._from_serial: {side} offset decoded", file, c.lineno,
-                      f"the serialized {side} offset `{u(off)}` reaches add_link without the inverse of _constrain_offset: an order edge "
-                      "(written at the first port after the value ports, or without offset) is reloaded as an ordinary port, so "
-                      "order links are lost or turned into value links", c,
-                      expected="inverse of _constrain_offset (may yield -1)", found=u(off))
-            if ok:
-                dec_helpers = {call_name(x) for x in calls_in(inv)} - {None}
-                shared = (enc_helpers & dec_helpers) - {"isinstance", "len", "int"}
-                ctx.check(bool(shared), R5, f"Hugr._from_serial: {side} offset agrees with encoder", file, inv.lineno,
-                          "the order-port encoder and its inverse do not derive the order port's position from a common helper: "
-                          f"encoder uses {sorted(enc_helpers)}, decoder {sorted(dec_helpers)}", inv, detail=f"shared helper {sorted(shared)}")
+    seen_sides = set()
+    for p in eps:
+        for c in [e.value for e in p.effects if isinstance(e, ast.Expr) and isinstance(e.value, ast.Call) and call_name(e.value) == "add_link"]:
+            for side, a in zip(("source", "target"), c.args):
+                if not (isinstance(a, ast.Call) and call_name(a) in ("out", "inp") and a.args):
+                    ctx.broken("Hugr._from_serial: add_link arguments are not <node>.out(...)/<node>.inp(...)")
+                if side in seen_sides:
+                    continue
+                seen_sides.add(side)
+                off = a.args[0]
+                inv = None
+                if isinstance(off, ast.Call) and isinstance(off.func, ast.Attribute):
+                    k, m = hugr.find_method(off.func.attr)
+                    inv = m
+                ok = False
+                if inv is not None:
+                    ips = [q for q in ctx.paths(f"{BASE}.Hugr.{inv.name}") if q.kind == "return"]
+                    ok = any(q.value_text() == "-1" for q in ips)
+                ctx.check(bool(ok), R5, f"Hugr._from_serial: {side} offset decoded", file, getattr(c, "lineno", eloop.lineno),
+                          f"the serialized {side} offset `{u(off)}` reaches add_link without the inverse of _constrain_offset: an order edge "
+                          "(written at the first port after the value ports, or without offset) is reloaded as an ordinary port, so "
+                          "order links are lost or turned into value links", eloop,
+                          expected="inverse of _constrain_offset (may yield -1)", found=u(off))
+                if ok:
+                    dec_helpers = {call_name(x) for x in calls_in(inv)} - {None}
+                    shared = (enc_helpers & dec_helpers) - {"isinstance", "len", "int"}
+                    ctx.check(bool(shared), R5, f"Hugr._from_serial: {side} offset agrees with encoder", file, inv.lineno,
+                              "the order-port encoder and its inverse do not derive the order port's position from a common helper: "
+                              f"encoder uses {sorted(enc_helpers)}, decoder {sorted(dec_helpers)}", inv, detail=f"shared helper {sorted(shared)}")
 
 
 def _guard_of(loop, stmt):
